@@ -63,6 +63,8 @@ def batch(tier):
         "hourly-randomsel-15": meter("hourly", "hourly_random_sel", 15, ghi=False),
         "hourly-13-randomsel-seed1234": meter("hourly", "hourly_random_sel_alt", 13, ghi=False, weekend_shift=0.3),
         # (for these two baselines the clustering does depend on the seed: measured, seed 0 / seed 1234 give other labels than seed 7 / 5)
+        # a baseline dated after today's date (forecast or simulated data): nothing of the clock may end up in the model
+        "daily-future-16": meter("daily", "legacy", 16, start_day=4500),
         "hourly-4-seed0": meter("hourly", "hourly_seed0", 4, ghi=False),
         "hourly-15-seed1234": meter("hourly", "hourly_seed_alt", 15, ghi=False),
     }
